@@ -201,7 +201,7 @@ func vC09[T vFC]() {
 	vReach("C09")
 	isView := func(l string) bool { return l == "S" || l == "SS" }
 	kfViews := isView(la) || isView(lb)
-	kfMixed := (la == "F") != (lb == "F") && routine != "Trace"
+	kfMixed := ((la == "F") != (lb == "F") || (mode != "" && (la == "F" || lb == "F"))) && routine != "Trace"
 	vAssertKF2(!pan, "no-panic", "KF-C09-views", kfViews, "KF-C16-matmul-mixed", kfMixed)
 	if pan {
 		return
